@@ -53,6 +53,10 @@ def mixed(rng):
 
 # Snippets that make every registered syntax rule look at something (C13/C12/C20).
 RULE_TRIGGERS = [
+    # several names that are both global and nonlocal / unbound nonlocal on one line (which one is reported must not depend on the process)
+    'def f():\n    global a, b\n    nonlocal a, b\n', 'def f():\n    a = b = c = 1\n    def g():\n        global a, b, c; nonlocal a, b, c\n',
+    'def f():\n    def g():\n        def h():\n            nonlocal p, q, r\n', 'def f():\n    def g():\n        nonlocal u, v\n        nonlocal w, x\n    global u, v, w, x\n',
+    'def f():\n    nonlocal a, b; global b, a\n', 'class A:\n    def f(self):\n        def g():\n            nonlocal m, n, o, __class__\n',
     # multi-line string literals: characters str.splitlines() breaks at, and continuation lines with mixed tab/space indentation
     "text = '''one two three\x85four\n \tmixed\n'''\n", 'doc = \"\"\"a\x0cb\x0bc\n\t bad\n  \tworse\n\"\"\"', "s = '''\x1c\x1d\x1e\n \t \tx'''",
     'def f():\n    \"\"\"summary\x0c\n\n    \tbody\n \t   end\n    \"\"\"\n', "x = [\n    '''a \n\t b''',\n]\n", "b = b'''\x85\n \tz\n'''\ny = 1",
